@@ -280,8 +280,15 @@ func mutexBlockedInIce(dump string) bool {
 		if i := strings.IndexByte(g, '\n'); i >= 0 {
 			head = g[:i]
 		}
-		if (strings.Contains(head, "[sync.Mutex.Lock") || strings.Contains(head, "[semacquire")) &&
-			strings.Contains(g, "github.com/blugelabs/ice/v2.") {
+		blocked := false
+		for _, st := range []string{"[sync.Mutex.Lock", "[semacquire", "[sync.RWMutex", "[sync.Cond.Wait", "[sync.WaitGroup.Wait", "[chan receive", "[chan send", "[select"} {
+			if strings.Contains(head, st) {
+				blocked = true
+			}
+		}
+		// a goroutine blocked on a lock, semaphore, condition or channel with an
+		// ice frame on its stack: ice is waiting for something nobody will provide
+		if blocked && strings.Contains(g, "github.com/blugelabs/ice/v2.") {
 			return true
 		}
 	}
